@@ -1,6 +1,7 @@
 import Heathcliff.Proofs.C09D
 import Heathcliff.Proofs.C09E
 import Heathcliff.Proofs.C09F
+import Heathcliff.Proofs.C09G
 
 /- Property theorems only (statements verbatim; proofs are the helper lemmas of Heathcliff/Proofs). -/
 namespace HC.C09
@@ -119,6 +120,44 @@ theorem minimalRootFrom_spec (h : m.WF) {n g : Nat} (hn : 0 < n) (hg : g < m.val
 theorem composite_counterexample :
     IsPrim 2 85 13 ∧ IsPrim 2 85 38 ∧
     (∀ j, j < 2 → 13 ≤ 13^(2*j+1) % 85) ∧ (∀ j, j < 2 → 38 ≤ 38^(2*j+1) % 85) := HC.composite_counterexample 
+
+/-! ### API level: the tables `NTTTables::new` builds, and `ntt` / `intt` / `dyadic_product` on arrays -/
+variable {t : NTTTables}
+
+/-- TABLE LINK: every successfully constructed table (root0 a `u64`) is well formed: bit-reversed powers of the root,
+    scrambled powers of its inverse, n^-1 — for every modulus and every degree 2^k, k ≤ 60 -/
+theorem NTTTables.new_wf_u64 {k : Nat} {m : Modulus} {pr : Bool} {root0 : Nat} {t : NTTTables}
+    (hm : m.WF) (hk : k ≤ 60) (hr0 : root0 < 2^64) (h : NTTTables.new k m pr root0 = .ok t) :
+    t.WF ∧ t.k = k ∧ t.modulus = m ∧ pr = true := HC.NTTTables.new_wf_u64 hm hk hr0 h
+
+
+/-- FORWARD, lazy form: inputs < 4q ⇒ outputs < 4q and congruent to the evaluations -/
+theorem nttLazy_spec (hw : t.WF) (a : Array Nat) (hs : a.size = 2^t.k) (ha : ∀ j, j < 2^t.k → a.getD j 0 < 4 * t.modulus.value) :
+    (nttLazy t a).size = 2^t.k ∧ ∀ i, i < 2^t.k →
+      (nttLazy t a).getD i 0 < 4 * t.modulus.value ∧ (nttLazy t a).getD i 0 % t.modulus.value = evalSpec t a i := HC.nttLazy_spec hw a hs ha
+
+/-- FORWARD: `ntt` returns the canonical residues of the evaluations at ψ^(2·brev(i)+1) -/
+theorem ntt_eval (hw : t.WF) (a : Array Nat) (hs : a.size = 2^t.k) (ha : ∀ j, j < 2^t.k → a.getD j 0 < 4 * t.modulus.value) :
+    (ntt t a).size = 2^t.k ∧ ∀ i, i < 2^t.k → (ntt t a).getD i 0 = evalSpec t a i := HC.ntt_eval hw a hs ha
+
+/-- INVERSE, lazy form: inputs < 2q ⇒ outputs < 2q -/
+theorem inttLazy_range (hw : t.WF) (a : Array Nat) (hs : a.size = 2^t.k) (ha : ∀ j, j < 2^t.k → a.getD j 0 < 2 * t.modulus.value) :
+    (inttLazy t a).size = 2^t.k ∧ ∀ i, i < 2^t.k → (inttLazy t a).getD i 0 < 2 * t.modulus.value := HC.inttLazy_range hw a hs ha
+
+/-- INVERSE ∘ FORWARD = id on canonical vectors -/
+theorem intt_ntt (hw : t.WF) (a : Array Nat) (hs : a.size = 2^t.k) (ha : ∀ j, j < 2^t.k → a.getD j 0 < t.modulus.value) :
+    intt t (ntt t a) = a := HC.intt_ntt hw a hs ha
+
+/-- FORWARD ∘ INVERSE = id on canonical vectors -/
+theorem ntt_intt (hw : t.WF) (a : Array Nat) (hs : a.size = 2^t.k) (ha : ∀ j, j < 2^t.k → a.getD j 0 < t.modulus.value) :
+    ntt t (intt t a) = a := HC.ntt_intt hw a hs ha
+
+/-- CONVOLUTION: pointwise multiplication of transforms corresponds to multiplication modulo X^N + 1 -/
+theorem ntt_convolution_api (hw : t.WF) (a b : Array Nat) (hsa : a.size = 2^t.k) (hsb : b.size = 2^t.k)
+    (ha : ∀ j, j < 2^t.k → a.getD j 0 < t.modulus.value) (hb : ∀ j, j < 2^t.k → b.getD j 0 < t.modulus.value) :
+    ∃ p, dyadicProduct (ntt t a) (ntt t b) t.modulus = .ok p ∧
+      (intt t p).size = 2^t.k ∧ ∀ c, c < 2^t.k → (intt t p).getD c 0 = negMulNat (2^t.k) t.modulus.value a b c := HC.ntt_convolution_api hw a b hsa hsb ha hb
+
 
 /-! ### root determinism (the degree N is a power of two, as everywhere in the library).
     The statements for ARBITRARY n > 0 are false (q = 7, n = 3: 6 and 3 both satisfy x^3 = -1 but 3 is not an odd power of 6);
